@@ -12,7 +12,7 @@ import ast
 from ..core import rule, AnalysisError
 from ..engine import pattern as P
 from ..engine.facts import dotted, const, src, walk_func, enclosing_stmt
-from .common import calls, pn, access_paths, sym_cases, resolve, resolve_deep, guards_of, branch_paths
+from .common import calls, pn, access_paths, sym_cases, resolve, resolve_deep, guards_of, branch_paths, line_sources
 from . import c10  # xml-table (what the `x` flag denotes) is registered for C02 there
 from . import c03  # printer-indents-first-line-only (multi-line expressions keep their text) is registered for C02 there
 
@@ -303,8 +303,8 @@ def wrap_order(ctx):
     callform = P.has(lp, "($i, $a) = $m.group(1, 2)\n...\n$e = $f + $a") or P.has(lp, "($i, $a) = $m.group(1, 2)\n$f = locate_encode($i)\n$e = $f + $a")
     ctx.check(callform and (fvar == ev or bool(defs_f)), "call-filters", db.where(lp), "filters written as calls lose their arguments or are not resolved by name", "name resolved, arguments kept")
     wt = db.func("codegen._GenerateRenderMethod.write_toplevel")
-    imp = [c for c in calls(wt, "self.printer.writeline") if const(c.args[0]) and str(const(c.args[0])).startswith("from mako import")]
-    ok = bool(imp) and {"runtime", "filters", "cache"} <= set(const(imp[0].args[0]).replace("from mako import", "").replace(" ", "").split(","))
+    imp = [a_ for a_ in line_sources(wt) if const(a_) and str(const(a_)).startswith("from mako import")]
+    ok = bool(imp) and {"runtime", "filters", "cache"} <= set(const(imp[0]).replace("from mako import", "").replace(" ", "").split(","))
     ctx.check(ok, "emitted-import", db.where(wt), "generated modules do not import runtime, filters and cache", "from mako import runtime, filters, cache")
 
 
@@ -409,5 +409,5 @@ def flag_table(ctx):
     en = db.module_assign("filters", "html_entities_escape")
     ctx.check(src(en) == "_html_entities_escaper.escape_entities", "denotes:entity", db.where(en), "html_entities_escape is %s" % src(en), "escape_entities of the HTML entity table")
     wt = db.func("codegen._GenerateRenderMethod.write_toplevel")
-    imp = [c for c in calls(wt, "self.printer.writeline") if const(c.args[0]) and str(const(c.args[0])).startswith("from mako import") and "filters" in str(const(c.args[0]))]
+    imp = [a_ for a_ in line_sources(wt) if const(a_) and str(const(a_)).startswith("from mako import") and "filters" in str(const(a_))]
     ctx.check(bool(imp), "module-imports-filters", db.where(wt), "generated modules do not import mako.filters: the `filters.` names the flags denote are unbound", "from mako import ... filters ...")
